@@ -42,8 +42,18 @@ type Violation struct {
 	Params    map[string]int `json:"params"`
 	Trace     []string    `json:"trace,omitempty"`
 	Outs      []string    `json:"outs,omitempty"`
+	Sched     []SchedStep `json:"sched_order,omitempty"`
+	SchedHang bool        `json:"sched_hang,omitempty"`
+	SchedFree bool        `json:"sched_free,omitempty"` // threads run free under the race detector
 	Confirmed string      `json:"confirmed,omitempty"` // set by replay
 	ReplayOut string      `json:"-"`
+}
+
+// SchedStep is one gateable event (a user event of a thread) of a schedule witness.
+type SchedStep struct {
+	Thread string `json:"t"`
+	N      int    `json:"n"` // ordinal among the thread's user events
+	Text   string `json:"e"`
 }
 
 // Path is the per-path exploration state.
@@ -99,6 +109,7 @@ type HarnessResult struct {
 	CrossQueries []CrossQuery
 	Outs         [][]string
 	SchedStates, SchedTransitions, SchedValidated int
+	Undecided           map[string]int // schedule layer: combinations outside the decided bound
 	ViolCount           map[string]int
 	NViolations         int
 	Unwinds             map[string]int
@@ -135,6 +146,9 @@ type Explorer struct {
 	stopped bool
 
 	pdomCache map[*ssa.Function]map[*ssa.BasicBlock]*ssa.BasicBlock
+
+	schedShared *schedShared
+	schedNames  *[]string
 }
 
 func (ex *Explorer) push(p []Decision) {
